@@ -105,7 +105,16 @@ def call_name(I, n, name, args, kwargs):
     if I.env.has(name):
         return call_value(I, n, I.env.get(name), args, kwargs)
     if name == 'round':
-        return args[0]
+        v = args[0]
+        if len(n.args) > 1 and 'internal_precision' in unparse(n.args[1]):
+            from .unitai import RNum, SNum
+            if isinstance(v, SNum):
+                I.sink(n, 'round-then-scale', False,
+                       'an amount just converted out of its storage unit is rounded to the internal precision, which is '
+                       'meant for storage units: amounts below that precision in the coarser unit become 0')
+            if type(v) is Num or isinstance(v, SNum):
+                return RNum(v.unit)
+        return v
     if name in ('abs', 'float'):
         v = args[0]
         if name == 'float':
@@ -733,6 +742,9 @@ def cell_outcome(I, n, s, fuu, tuu):
         raise Raised('ValueError', n.lineno)
     if ('U' in tuu.dims and not enz) or (enz and ('mol' in tuu.dims or 'mol' in fuu.dims)):
         return Lit(0.0)
+    if fuu.has_storage_symbol() and not tuu.has_storage_symbol():
+        from .unitai import SNum
+        return SNum(tuu)
     return Num(tuu)
 
 
@@ -815,6 +827,10 @@ def api_convert_to_storage(I, n, v, u):
     dim_ok = uu.dimension() in (base('L').dimension(), base('mol').dimension())
     I.sink(n, 'to-storage-dim', dim_ok, f"convert_to_storage is given the unit {uu}: only volumes and moles have a storage unit")
     I.check_same(I.as_unit(v, n, True), uu, n, 'to-storage', 'value passed to convert_to_storage is not in the unit given with it')
+    from .unitai import RNum
+    if isinstance(v, RNum):
+        I.sink(n, 'round-then-scale', False, 'a value rounded to the internal precision in the user / base unit is converted to the '
+                                             'storage unit afterwards: the rounding error is multiplied by the ratio of the prefixes')
     return Num(PVS_L if 'L' in uu.dims else PMS_MOL)
 
 
